@@ -19,6 +19,15 @@ Theorem C12_gen_items_independent :
 Proof. apply probes_independent_sound. vm_compute. reflexivity. Qed.
 Print Assumptions C12_gen_items_independent.
 
+(* the same independence on the footprints derived for configurations OUTSIDE the model (distance, angle, dihedral,
+   gyration, coordNum, rmsd, ... components; metadynamics, abf, histogram, walls, linear, replica-sharing biases): no
+   location is written by two items of a loop, none written by one is read by another.  Items with private state that do
+   not repeat themselves (hills, samples) contribute their write sets only. *)
+Theorem C12_gen_rich_items_independent :
+  Forall (fun p => Pairwise fp_indep (p_comp p) /\ Pairwise fp_indep (p_bias p) /\ Pairwise fp_indep (p_collect p)) gen_rich_probes.
+Proof. apply probes_independent_sound. vm_compute. reflexivity. Qed.
+Print Assumptions C12_gen_rich_items_independent.
+
 (* the regenerated table is not empty *)
 Example C12_gen_nonempty : negb (Nat.eqb (length gen_probes) 0) = true /\
   existsb (fun p => Nat.leb 2 (length (p_comp p))) gen_probes = true.
